@@ -437,6 +437,9 @@ func Lock(id int, try func() bool, unlock func()) {
 	}
 }
 
+// PollReadable reports whether fd is readable right now (poll(2), nothing is consumed).
+func PollReadable(fd int) bool { return pollReadable(fd) }
+
 func pollReadable(fd int) bool {
 	fds := []unix.PollFd{{Fd: int32(fd), Events: unix.POLLIN}}
 	n, err := unix.Poll(fds, 0)
